@@ -53,6 +53,11 @@ fn cfg() -> RaftConfig {
         // wall clock never decides anything here: pre-votes are only granted after
         // `reset_heartbeat_for_election` (10 s in the past) against a 1 s threshold
         election_timeout: (1_000, 2_000),
+        // log compaction must be reachable with logs of a handful of entries
+        snapshot_threshold: 3,
+        snapshot_trailing_logs: 1,
+        compaction_check_interval: 1,
+        compaction_cooldown_ms: 0,
         ..RaftConfig::default()
     }
 }
@@ -202,8 +207,14 @@ struct Sim {
     garbage_from: Option<u64>,
     /// file length before the first successful snapshot install still reflected in the file
     snapshot_at: Option<u64>,
-    /// the live node's log came from a snapshot install (the WAL does not describe it)
-    live_snapshot: bool,
+    /// entries the live node has compacted away behind a snapshot (its log_base_index, observed as
+    /// last_log_index - log_length); 0 after every restart and snapshot install
+    base: u64,
+    /// length of the prefix of `model_log` the live node regards as committed (commit_index); the
+    /// environment honours it (Leader Completeness): every later leader's log starts with it
+    committed: usize,
+    force_win: bool,
+    force_hb_success: bool,
     crashes: Vec<u64>,
     trace: Vec<String>,
     seen: BTreeSet<String>,
@@ -244,7 +255,10 @@ impl Sim {
             calls: BTreeSet::new(),
             garbage_from: None,
             snapshot_at: None,
-            live_snapshot: false,
+            base: 0,
+            committed: 0,
+            force_win: false,
+            force_hb_success: false,
             crashes: Vec::new(),
             trace: Vec::new(),
             seen: BTreeSet::new(),
@@ -355,15 +369,16 @@ impl Sim {
         }
         self.calls.insert(post);
         r.count("ack_boundaries", 1);
-        if self.live_snapshot {
-            // this boundary is (also) the boundary of a state the WAL does not describe
-            self.led.shape.remove(&post);
-        } else {
-            let n = self.node();
-            let shape = (n.log_length() as u64, n.last_log_index(), n.last_log_term());
-            self.led.shape.insert(post, shape);
-        }
+        let shape = self.live_shape();
+        self.led.shape.insert(post, shape);
         post
+    }
+
+    /// (logical log length, last_log_index, last_log_term) of the live node; a restarted node has
+    /// no compaction offset, so its log_length is compared with log_length + base of the live one
+    fn live_shape(&self) -> (u64, u64, u64) {
+        let n = self.node();
+        (n.log_length() as u64 + self.base, n.last_log_index(), n.last_log_term())
     }
 
     fn cur_term(&self) -> u64 {
@@ -379,7 +394,7 @@ impl Sim {
     fn check_model(&mut self, r: &mut Report) {
         let n = self.node();
         let (ml, mt) = self.model_last();
-        if n.log_length() as u64 != ml || n.last_log_index() != ml || n.last_log_term() != mt {
+        if n.log_length() as u64 + self.base != ml || n.last_log_index() != ml || n.last_log_term() != mt {
             r.inconclusive("live log shape differs from the follower-rule model (case dropped)");
             self.stop = true;
         }
@@ -438,9 +453,10 @@ impl Sim {
                 return *self.rng.pick(&stale);
             }
         }
+        let committed: Vec<u64> = self.model_log[..self.committed.min(self.model_log.len())].to_vec();
         if roll < 70 {
             if let Some(t) = newest {
-                if t >= cur {
+                if t >= cur && self.leaders[&t].starts_with(&committed) {
                     return t;
                 }
             }
@@ -474,6 +490,10 @@ impl Sim {
             let keep = self.rng.below(l.len() + 1);
             l[..keep].to_vec()
         };
+        if !base.starts_with(&committed) {
+            // Leader Completeness: whoever wins an election holds every committed entry
+            base = committed;
+        }
         if let Some(p) = base.iter().position(|x| *x >= t) {
             base.truncate(p);
         }
@@ -577,7 +597,8 @@ impl Sim {
             prev_log_index: prev as u64,
             prev_log_term: if prev == 0 { 0 } else { l[prev - 1] },
             entries: entries.clone(),
-            leader_commit: self.rng.below(l.len() + 1) as u64,
+            // never beyond the last entry this message establishes on the follower
+            leader_commit: self.rng.below(upto + 1) as u64,
             block_embedding: None,
         };
         let from = ae.leader_id.clone();
@@ -610,6 +631,9 @@ impl Sim {
                     self.model_log.push(e.term);
                     r.count("entries_appended", 1);
                 } else if self.model_log[i - 1] != e.term {
+                    if self.base > 0 {
+                        r.count("conflict_truncations_on_a_compacted_log", 1);
+                    }
                     self.led.supersede_from(e.index, pre);
                     self.model_log.truncate(i - 1);
                     self.model_log.push(e.term);
@@ -617,7 +641,7 @@ impl Sim {
                 } else {
                     r.count("entries_already_present", 1);
                 }
-                self.led.entry(post, e.index, e.term, entry_bytes(e), "acknowledged to a leader (carried by an AppendEntries answered with success)", self.live_snapshot);
+                self.led.entry(post, e.index, e.term, entry_bytes(e), "acknowledged to a leader (carried by an AppendEntries answered with success)", false);
             }
             self.check_model(r);
         } else {
@@ -654,7 +678,8 @@ impl Sim {
         self.note_grant(r, post, term, NODE);
         let may_win = !self.leaders.contains_key(&term);
         self.node_terms.insert(term);
-        match self.rng.below(10) {
+        let roll = self.rng.below(10);
+        match if self.force_win { 0 } else { roll } {
             0..=4 if may_win => {
                 let need = (self.peers.len() + 1) / 2; // with its own vote: majority
                 for p in self.peers.clone().iter().take(need) {
@@ -754,7 +779,7 @@ impl Sim {
                 self.note_term(post, ae.term, "own AppendEntries");
                 for e in &ae.entries {
                     // what a leader replicates it has accepted; content taken from its own message
-                    self.led.entry(post, e.index, e.term, entry_bytes(e), "replicated by the node as leader", self.live_snapshot);
+                    self.led.entry(post, e.index, e.term, entry_bytes(e), "replicated by the node as leader", false);
                 }
                 sent.push((to, ae));
             }
@@ -764,10 +789,18 @@ impl Sim {
         }
         r.count("leader_heartbeat_rounds", 1);
         self.trace.push(format!("send_heartbeats -> {} AppendEntries(term {}) @{}", sent.len(), sent[0].1.term, post));
-        let mode = self.rng.below(10);
+        let mut mode = self.rng.below(10);
+        if self.force_hb_success {
+            mode = 9;
+        }
+        // a leader of a later term exists (the node forgot it in a crash): nobody follows n0 any more
+        let later = self.leaders.keys().next_back().copied().filter(|t| *t > sent[0].1.term);
+        if later.is_some() {
+            mode = 0;
+        }
         for (to, ae) in sent {
             let resp = match mode {
-                0 => AppendEntriesResponse { term: ae.term + 1, success: false, follower_id: to.clone(), match_index: 0, used_fast_path: false },
+                0 => AppendEntriesResponse { term: later.unwrap_or(ae.term + 1), success: false, follower_id: to.clone(), match_index: 0, used_fast_path: false },
                 1 => AppendEntriesResponse { term: ae.term, success: false, follower_id: to.clone(), match_index: 0, used_fast_path: false },
                 _ => AppendEntriesResponse {
                     term: ae.term,
@@ -783,7 +816,7 @@ impl Sim {
             self.after_call(pre, r);
             if mode == 0 {
                 r.count("step_downs", 1);
-                self.trace.push(format!("AppendEntriesResponse(term {}) -> leader stepped down, term {}", ae.term + 1, self.cur_term()));
+                self.trace.push(format!("AppendEntriesResponse(term {}) -> leader stepped down, term {}", later.unwrap_or(ae.term + 1), self.cur_term()));
                 break;
             }
         }
@@ -806,7 +839,7 @@ impl Sim {
                 }
                 self.model_log.push(term);
                 self.ack("propose Ok");
-                self.led.entry(post, index, term, entry_bytes(&mk_entry(index, term)), "accepted as leader (propose returned Ok)", self.live_snapshot);
+                self.led.entry(post, index, term, entry_bytes(&mk_entry(index, term)), "accepted as leader (propose returned Ok)", false);
                 self.check_model(r);
             }
             Err(_) => {
@@ -857,7 +890,7 @@ impl Sim {
             self.node().install_snapshot(meta.clone(), &data).is_ok()
         };
         if ok {
-            self.live_snapshot = true;
+            self.base = 0; // the installed log starts at index 1 again
         }
         let post = self.after_call(pre, r);
         self.trace.push(format!(
@@ -870,9 +903,21 @@ impl Sim {
         ));
         if ok {
             r.count("snapshots_installed", 1);
-            // the in-memory log is replaced wholesale: earlier entry obligations end here
-            self.led.supersede_from(0, pre);
+            // the log becomes the snapshot's entries 1..s. Entries the node holds that the snapshot
+            // repeats (same index, same term = same entry) stay promised throughout — a crash
+            // anywhere inside the install must not lose them; promises end only from the first
+            // index where the snapshot differs from the node's log, and behind the snapshot
+            let overlap = s.min(self.model_log.len());
+            let first_diff = (0..overlap).find(|i| self.model_log[*i] != l[*i]).map_or(s as u64 + 1, |i| i as u64 + 1);
+            if first_diff <= self.model_log.len() as u64 {
+                r.count("snapshot_installs_over_a_held_log", 1);
+            }
+            if first_diff > 1 && overlap > 0 {
+                r.count("snapshot_installs_repeating_held_entries", 1);
+            }
+            self.led.supersede_from(first_diff, pre);
             self.model_log = l[..s].to_vec();
+            self.committed = s;
             if self.snapshot_at.is_none() {
                 self.snapshot_at = Some(pre);
             }
@@ -884,11 +929,11 @@ impl Sim {
     fn step(&mut self, r: &mut Report) {
         let leader = self.node().is_leader();
         let snap = self.part == Part::Snapshot;
-        //            rv  pv  ae  el  pvo tn  hb  prop snap
-        let w: [u32; 9] = if leader {
-            [10, 3, 10, 2, 0, 0, 30, 40, if snap { 6 } else { 0 }]
+        //             rv  pv  ae  el  pvo tn  hb  prop snap compact career
+        let w: [u32; 11] = if leader {
+            [10, 3, 12, 2, 0, 0, 28, 36, if snap { 6 } else { 0 }, 12, 0]
         } else {
-            [22, 4, 42, 12, 5, 3, 0, 0, if snap { 14 } else { 0 }]
+            [22, 4, 42, 10, 5, 3, 0, 0, if snap { 14 } else { 0 }, 0, 5]
         };
         match self.rng.weighted(&w) {
             0 => self.step_request_vote(r),
@@ -899,9 +944,122 @@ impl Sim {
             5 => self.step_timeout_now(r),
             6 => self.step_leader_heartbeat(r),
             7 => self.step_propose(r),
-            _ => self.step_install_snapshot(r),
+            8 => self.step_install_snapshot(r),
+            9 => self.step_compact(r),
+            _ => self.step_leader_career(r),
         }
         r.count("protocol_steps", 1);
+        self.note_commit();
+    }
+
+    /// what the live node regards as committed binds the environment from now on
+    fn note_commit(&mut self) {
+        if self.stop || self.node.is_none() {
+            return;
+        }
+        let c = self.node().commit_index() as usize;
+        self.committed = self.committed.min(self.model_log.len());
+        if c > self.committed && c <= self.model_log.len() {
+            self.committed = c;
+        }
+    }
+
+    /// the application finalizes committed entries and the leader compacts its log behind a
+    /// snapshot (through tick_async's automatic compaction, or create_snapshot + truncate_log)
+    fn step_compact(&mut self, r: &mut Report) {
+        if !self.node().is_leader() {
+            return;
+        }
+        let c = self.node().commit_index();
+        if c == 0 {
+            r.count("compactions_skipped_nothing_committed", 1);
+            return;
+        }
+        let h = if self.rng.chance(2, 3) { c } else { 1 + self.rng.below(c as usize) as u64 };
+        if self.node().finalize_to(h).is_err() {
+            return;
+        }
+        let via_tick = self.rng.bool();
+        let pre = file_len(&self.wal);
+        let done = if via_tick {
+            self.rt.block_on(self.node().tick_async()).is_ok()
+        } else {
+            match self.node().create_snapshot() {
+                Ok((meta, _data)) => self.node().truncate_log(&meta).is_ok(),
+                Err(_) => false,
+            }
+        };
+        let post = self.after_call(pre, r);
+        // tick_async may also have sent heartbeats
+        for (_, m) in self.transport.drain() {
+            if let Message::AppendEntries(ae) = m {
+                self.note_term(post, ae.term, "own AppendEntries");
+                for e in &ae.entries {
+                    self.led.entry(post, e.index, e.term, entry_bytes(e), "replicated by the node as leader", false);
+                }
+            }
+        }
+        let n = self.node();
+        let new_base = if n.log_length() == 0 { self.base } else { n.last_log_index().saturating_sub(n.log_length() as u64) };
+        self.trace.push(format!(
+            "finalize_to({}) + {} -> {} ; compaction offset {} -> {} @{}",
+            h,
+            if via_tick { "tick_async" } else { "create_snapshot/truncate_log" },
+            if done { "ok" } else { "err" },
+            self.base,
+            new_base,
+            post
+        ));
+        if new_base > self.base {
+            r.count("log_compactions", 1);
+        }
+        self.base = new_base;
+        let shape = self.live_shape();
+        self.led.shape.insert(post, shape);
+        self.check_model(r);
+    }
+
+    /// a whole leadership: win an election, replicate and commit a few entries, accept some more,
+    /// compact the log — and (usually) get deposed by a leader that never saw the uncommitted tail
+    fn step_leader_career(&mut self, r: &mut Report) {
+        if !self.node().is_leader() {
+            self.force_win = true;
+            self.step_election(r);
+            self.force_win = false;
+            if self.stop || !self.node().is_leader() {
+                return;
+            }
+        }
+        self.force_hb_success = true;
+        self.step_leader_heartbeat(r);
+        for _ in 0..(2 + self.rng.below(4)) {
+            if !self.stop {
+                self.step_propose(r);
+            }
+        }
+        for _ in 0..2 {
+            if !self.stop {
+                self.step_leader_heartbeat(r);
+            }
+        }
+        self.force_hb_success = false;
+        if self.stop || !self.node().is_leader() {
+            return;
+        }
+        self.note_commit();
+        for _ in 0..self.rng.below(4) {
+            if !self.stop {
+                self.step_propose(r);
+            }
+        }
+        if !self.stop && self.rng.chance(4, 5) {
+            self.step_compact(r);
+        }
+        if !self.stop && self.rng.chance(3, 5) {
+            self.note_commit();
+            self.step_append_entries(r);
+        }
+        r.count("leader_careers", 1);
     }
 
     fn run_steps(&mut self, n: usize, r: &mut Report) {
@@ -1008,8 +1166,8 @@ impl Sim {
             return;
         }
         // (4) at an ack boundary the restarted log has the shape the live node had there (nothing
-        //     resurrected, nothing missing); not applied once a snapshot install is in the file
-        if self.calls.contains(&x) && !self.snapshot_at.map_or(false, |s| x > s) {
+        //     resurrected, nothing missing)
+        if self.calls.contains(&x) {
             if let Some(&(len, li, lt)) = self.led.shape.get(&x) {
                 r.count("ack_boundary_shape_checks", 1);
                 let got = (node.log_length() as u64, node.last_log_index(), node.last_log_term());
@@ -1164,7 +1322,8 @@ impl Sim {
         if self.snapshot_at.map_or(false, |s| b <= s) {
             self.snapshot_at = None;
         }
-        self.live_snapshot = false;
+        self.base = 0;
+        self.committed = 0;
         if !self.open_node(r) {
             return;
         }
